@@ -92,6 +92,20 @@ def run(chk):
         inputs.append(("lef2raw", f"lefraw{i}", {"toks": c["toks"]}))
         if not any(t.get("v") == "PATH" for t in c["toks"]):
             inputs.append(("lef2raw2lef", f"lefraw{i}", {"toks": c["toks"]}))
+    # the same raw libraries with LONG cell names (45 to 80 characters, common prefixes longer than any format's traditional
+    # limit, multi-byte characters): whatever an exporter does to names, it does the same in every process
+    def long_names(lib):
+        import copy
+        lib = copy.deepcopy(lib)
+        ren = {c["name"]: "cell_with_a_long_hierarchical_name_" + "x" * (7 * k % 30) + "_é中_" + c["name"] for k, c in enumerate(lib["cells"])}
+        for c in lib["cells"]:
+            c["name"] = ren[c["name"]]
+            for i in c.get("insts", []):
+                i["cell"] = ren.get(i["cell"], i["cell"])
+        return lib
+    for (cv, name, inp) in list(inputs):
+        if cv in ("raw2gds", "raw2proto", "raw2lef") and (name.startswith("abs") or name.startswith("rawgds")) and isinstance(inp, dict) and "cells" in inp:
+            inputs.append((cv, name + "+longnames", long_names(inp)))
     inputs += tetris_inputs(chk)
     chk.require(len(inputs) >= 100, "too few determinism inputs")
     cases = [{"id": k, "conv": cv, "input": inp, "n": 5} for k, (cv, name, inp) in enumerate(inputs)]
